@@ -94,6 +94,15 @@ CLAIMED = {
             "and second signatures, and an equal copy.",
             "Signatures whose capacity is not an integer number of ticks are outside the generated space; the identical "
             "repeated signature is a recorded open finding.", "6 (C09/C10)"),
+    "C15": ("Merge", "TLC model check of Merge.tla (merge-one-more-sequence system, all merge orders, confluence) + families "
+            "of its scores merged by the real code in every order + TLC trace validation",
+            "TLC explores every merge order of every family (singletons and pairs, thorough also triples) of the generated "
+            "scores and checks that the fused piano roll does not depend on the order, equals the fusion of the union, has "
+            "no overlaps and the maximum duration. Those families dressed with 8 signature plans and seeded random ones "
+            "are merged by the real code in all permutations; TLC evaluates sounding set = union, well-formedness, "
+            "fusion of overlapping (not abutting) notes, kept signature streams, duration = max, views agree and order "
+            "independence of (pitch, onset, duration).",
+            "Different signatures of one kind on the same tick are outside the property and filtered by the validator.", "6 (C15)"),
 }
 PENDING = {}
 props = [json.loads(l) for l in open(V / "properties.jsonl")]
